@@ -6,7 +6,7 @@ import py2lean
 import structure
 import tracegen
 
-AST_MODULES = ["targets_dast", "targets_vast"]
+AST_MODULES = ["targets_dast", "targets_vast", "targets_sast", "targets_tast"]
 MODULES = ["targets_leaves", "targets_comb", "targets_bisect", "targets_misc", "targets_dist", "targets_params", "targets_planar", "targets_bnaf", "targets_arrcomb", "targets_flows", "targets_masks", "targets_wrappers", "targets_triangular"]
 
 def main(repo="/repo", outdir=None):
